@@ -24,6 +24,8 @@
 
 namespace sim
 {
+void allocFailArm(long k);
+bool allocFailDisarm(uint64_t* seen);
 uint64_t edgeCount();  // edgecount.cpp: basic-block edges of library code executed so far (asan variant; 0 elsewhere)
 }
 
@@ -1035,9 +1037,26 @@ bool Enc::encodeAborted(const std::vector<MsgSpec>& batch, size_t minBytes, size
         v.push_back(buildPacketPlain(m));
     if (v.empty())
         return false;
+    bool thrown = false;
+    if (where == 2)
+    {
+        // the throwAt-th allocation inside the call fails (a forked copy has other capacities, so it would not fail at
+        // the same place: the fork ends here)
+        d->shadow.reset();
+        sim::allocFailArm(static_cast<long>(throwAt));
+        try
+        {
+            (void) d->obj.encode(v.begin(), v.end(), ctx);
+        }
+        catch (const std::bad_alloc&)
+        {
+            thrown = true;
+        }
+        sim::allocFailDisarm(nullptr);
+        return thrown;
+    }
     throwAt %= v.size();
     ThrowingIt b{&v, 0, throwAt, where}, e{&v, v.size(), throwAt, where};
-    bool thrown = false;
     for (Encoder* enc : {&d->obj, d->shadow.get()})
     {
         if (!enc)
@@ -1155,7 +1174,7 @@ Dec::~Dec()
 {
     delete d;
 }
-std::vector<PacketRef> Dec::decode(const uint8_t* data, size_t size)
+std::vector<PacketRef> Dec::decode(const uint8_t* data, size_t size, long allocFailAt)
 {
     preCall();
     ScopedLocale loc;
@@ -1164,7 +1183,25 @@ std::vector<PacketRef> Dec::decode(const uint8_t* data, size_t size)
     if (shadowFirst)
         sv = d->shadow->decode(data, size);
     const uint64_t e0 = sim::edgeCount();
-    auto v = d->obj.decode(data, size);
+    std::vector<std::shared_ptr<Packet>> v;
+    lastThrew = false;
+    if (allocFailAt >= 0)
+    {
+        // fault: the allocFailAt-th allocation inside this call fails. The call may throw std::bad_alloc - nothing else.
+        d->shadow.reset();  // a forked copy would not see the same failure
+        sim::allocFailArm(allocFailAt);
+        try
+        {
+            v = d->obj.decode(data, size);
+        }
+        catch (const std::bad_alloc&)
+        {
+            lastThrew = true;
+        }
+        lastFired = sim::allocFailDisarm(&lastAllocs);
+    }
+    else
+        v = d->obj.decode(data, size);
     lastEdges = sim::edgeCount() - e0;
     if (d->shadow && !shadowFirst)
         sv = d->shadow->decode(data, size);
